@@ -203,7 +203,7 @@ def hsym(el, ch, h, b=""):
 def gen_selfies(rng, ctx, kind=None):
     """ctx: dict(pool=list of symbols, focus=list of (el, ch, caps...))."""
     kind = kind or rng.choice(("plain", "plain", "rings", "branchy", "focus", "focus", "hflip",
-                               "multi", "novel", "chain"))
+                               "multi", "novel", "chain", "multiidx", "bigring", "stereo"))
     pool = ctx["pool"]
     if kind == "focus" and ctx["focus"]:
         el, ch, caps = rng.choice(ctx["focus"])
@@ -222,6 +222,33 @@ def gen_selfies(rng, ctx, kind=None):
         lo, hi = min(caps), max(caps)
         h = rng.randint(min(9, max(0, lo - 1)), min(9, hi + 1))
         return "[C]" + hsym(el, ch, h, rng.choice(("", "", "="))) + rng.choice(("", "[C]", "[=O]", "[F][F]"))
+    if kind == "multiidx":     # 2-3 index symbols are read (Q as a base-16 number), sometimes non-index symbols
+        w = []
+        for _ in range(rng.randint(2, 8)):
+            w.append("".join(rng.choice(ORG_SYMS[:10]) for _ in range(rng.randint(1, 12))))
+            sym = rng.choice(("[Branch2]", "[=Branch2]", "[Ring2]", "[=Ring2]", "[Branch3]", "[Ring3]"))
+            k = 3 if sym.endswith("3]") else 2
+            idxs = [rng.choice(stubs.INDEX_ALPHABET[:4]) for _ in range(k - 1)] + [rng.choice(stubs.INDEX_ALPHABET)]
+            if rng.random() < 0.15:
+                idxs[rng.randrange(k)] = rng.choice(("[F]", "[Cl]", "[=O]", "[CH2]"))     # not an index symbol
+            w.append(sym + "".join(idxs))
+        w.append("".join(rng.choice(ORG_SYMS[:6]) for _ in range(rng.randint(0, 40))))
+        return "".join(w)
+    if kind == "bigring":      # a ring or branch spanning more than 16 atoms
+        n = rng.randint(17, 45)
+        body = "".join(rng.choice(("[C]", "[C]", "[N]", "[O]", "[=C]")) for _ in range(n))
+        q = n - 2 - rng.choice((0, 0, 1, 3))
+        tail = rng.choice(("[Ring2]", "[=Ring2]")) + stubs.INDEX_ALPHABET[q // 16] + stubs.INDEX_ALPHABET[q % 16]
+        if rng.random() < 0.5:
+            return body + tail + "".join(rng.choice(ORG_SYMS[:6]) for _ in range(rng.randint(0, 5)))
+        m = rng.randint(17, 30)
+        return "[C]" + rng.choice(("[Branch2]", "[=Branch2]")) + stubs.INDEX_ALPHABET[(m - 1) // 16] + \
+            stubs.INDEX_ALPHABET[(m - 1) % 16] + "".join(rng.choice(("[C]", "[N]", "[O]")) for _ in range(m)) + "[F]" + body[:10]
+    if kind == "stereo":
+        pool2 = ("[/C]", "[\\C]", "[/N]", "[\\O]", "[C@@H1]", "[C@H1]", "[C@]", "[C@@]", "[=C]", "[/F]", "[\\Cl]", "[C]",
+                 "[N@+1]", "[S@@]", "[/C@@H1]", "[\\C@H1]", "[=N]", "[Branch1][C][F]", "[-/Ring1][Ring1]", "[\\/Ring1][Ring2]",
+                 "[/-Ring1][Ring1]", "[//Ring2][Ring1][C]", "[Ring1][Ring2]", "[=Ring1][Ring1]")
+        return "".join(rng.choice(pool2) for _ in range(rng.randint(2, 30)))
     if kind == "rings":
         n = rng.randint(4, 40)
         w = [rng.choice(ORG_SYMS[:10]) for _ in range(n)]
@@ -297,6 +324,9 @@ SMILES_OK = (
     "c1cc[se]c1", "C1=C[Te]C=C1", "[Si](C)(C)(C)C", "B(O)(O)O", "[BH4-]", "[NH4+]", "[OH3+]",
     "F[Xe](F)(F)F", "Cl(=O)(=O)(=O)O", "I(F)(F)(F)(F)(F)(F)F", "N(=O)(=O)O", "C=C=C=C",
     "C:C:C:C", "C1:C:C:C:C:C:1", "N:C:C:N", "C:C", "CC:CC(F):C:C",
+    "[CH3:1][CH2:2]O", "[C:12](F)(F)(F)Cl", "C1CCCCCCCCCCCCCCCCCC1", "C(CCCCCCCCCCCCCCCCCCC)(F)Cl",
+    "C1CCCCCCCCCCCCCCCCCC1C2CCCCCCCCCCCCCCCCCC2", "F/C=C/C=C\\C=C/Cl", "C[C@H]1CC[C@@H](C)CC1", "O[C@@H]1CC[C@]21CCC2",
+    "[H]C([H])([H])[H]", "[2H]C([3H])=O", "[O--]", "[Fe+++]", "[NH3+][CH2][C](=O)[O-]", "C%11CC%11C%12CC%12",
     "C/C=C/C=C/C", "C[S@](=O)N", "[C@H]1(F)(Cl)CCC1", "O=C(O)[C@@H]1CCCN1", "C12C3C4C1C5C2C3C45",
 )
 SMILES_BAD = ("C:C:C", "C:C:C:C:C", "N:O:C", "C(", "C1CC", "cc", "[Xx]", "C)", "", "C((C))", "C=", "c1ccc1", "C$C", "C*", "[C", "C1CC2",
